@@ -86,11 +86,17 @@ def run_case(case, rng):
         raise Inconclusive("state_list differs from closure (C06's subject)")
     gamma = sp.gamma
     cap = rng.choice([50, 1000, 1000, 1, 2, 5])
+    if gamma <= 0.95 and rng.random() < 0.3:
+        cap = 100000      # the documented default (then usually left out); discounted problems only - an undiscounted run that
+        #                   cycles takes a minute to exhaust it
     arr = Rf.Arr(sp, states=S, actions=A)
     pinned = arr.absorbing.copy()
     case.family = fam
     case.params = dict(rep=rep, gamma=gamma, n=len(S), cap=cap)
-    planner = MultichainPolicyIteration(max_iterations=cap)
+    from mon import defaults as Dflt
+    mkw, _om = Dflt.rely_on_defaults(case, rng, "MultichainPolicyIteration", dict(max_iterations=cap), p=0.8)
+    planner = MultichainPolicyIteration(**mkw)
+    Dflt.in_force(case, "MultichainPolicyIteration", planner, passed=mkw)
     import copy
     sib = copy.deepcopy(sp)                       # same labels and shapes, fewer available actions, other rewards
     for s_ in sib.states:
